@@ -46,9 +46,21 @@ func runC02(x *X) {
 			return items, texts, fmt.Sprintf("%d x %q", n, text)
 		}
 	}
+	// cell-valued items: what is handed to AddRowItems/AddHeaders/NewCell is itself a tabular.Cell value
+	cellSerial := 0
+	cellItems := func(c *Chooser, b *Builder, op string, n int) ([]interface{}, []string, string) {
+		items, texts := make([]interface{}, n), make([]string, n)
+		for i := range items {
+			cellSerial++
+			texts[i] = fmt.Sprintf("v%d", cellSerial)
+			items[i] = tabular.NewCell(texts[i])
+		}
+		return items, texts, fmt.Sprintf("%d Cell values", n)
+	}
 	fams := []fam{{"build-seq", x.Pick(5, 6), []int{0, 1, 2, 3, 11}, nil},
 		{"build-seq-equal-texts", x.Pick(4, 5), []int{0, 1, 2, 3}, equalItems("dup")},
-		{"build-seq-blank-texts", x.Pick(4, 5), []int{0, 1, 2, 3}, equalItems("")}}
+		{"build-seq-blank-texts", x.Pick(4, 5), []int{0, 1, 2, 3}, equalItems("")},
+		{"build-seq-cell-valued-items", x.Pick(4, 5), []int{0, 1, 2, 3}, cellItems}}
 	if x.Thorough() {
 		fams = append(fams, fam{"build-seq-narrow", 7, []int{0, 1, 2}, nil})
 	} else {
